@@ -31,6 +31,7 @@ _P = "doi:10.5063/F1"
 DERIVED = ([_P, _hl.sha256(_P.encode()).hexdigest(), _hl.sha256((_P + "ns").encode()).hexdigest()],
            [None, _hl.sha256(_P.encode()).hexdigest()])
 SETS_QUICK.append(DERIVED)
+SETS_QUICK.append((["doi%3A10.5063%2FF1", "100%", "a%sb{0}"], [None, "%s", "%(x)s"]))     # template metacharacters
 # identifiers so long that one object's reference list exceeds 1 MiB (thorough tier, object calls only)
 HUGE = (["h" * 600000 + "q", "h" * 600000, "z"], [None])
 SETS_THOROUGH = SETS_QUICK + [HUGE] + [
@@ -120,6 +121,8 @@ def main(tier, replay_payload=None):
         collect(run, res, MINE, w_args, menu_fn)
         for sig in set(run.failures) - before:
             run.failures[sig]["payload"]["set"] = n
+    # the default format is the store's own namespace, whatever other stores the process has opened
+    two_stores(run, "C18", ["metadata", "first-store", "stored-object-not-retrievable", "call-failed", "other-pid-lost"])
     xh.run_kernels(run, "C18", kernels(tier))
     for f in loader.function_lines(loader.load(), API_FUNCS):
         if f not in run.functions:
